@@ -31,6 +31,10 @@ SPECS = [
              # afterwards: the macro's global definitions are visible, macroname is restored
              "globals_visible('macroname')",
              "visible('macroname') is visible0('macroname') or global_now('macroname') is not UNBOUND()",
+             # "fill-slots that name no slot are discarded": whatever the macro did with the filler, it
+             # is not left behind in the caller's scope for a later macro to pick up
+             # (a macro that itself publishes the name globally is its own business)
+             "in_globals('__slot_s') or not in_local('__slot_s')",
          ],
          raises={'*': {'ensures': ["raised('e1') or ext_raised(0)"]}},
          serves=['C09', 'C05'], no_fresh=True),
